@@ -977,13 +977,8 @@ def r6_5(ctx):
     ctx.floor(count, 13, "__str__ attribute word emitters")
     # (5) parse vocabulary
     parse = _method(ctx, "parse")
-    table = None
-    for n in walk_local(parse.node):
-        if isinstance(n, ast.Assign) and isinstance(n.value, ast.Dict) and len(n.value.keys) >= 13:
-            try:
-                table = (literal(n.value), n)
-            except AnalysisError:
-                pass
+    from .common import style_parse_vocabulary
+    table = style_parse_vocabulary(ctx)
     if table is None:
         raise AnchorVanished("Style.parse attribute vocabulary dict not found")
     vocab, tnode = table
